@@ -690,3 +690,6 @@ COMPONENTS = {
              "mpilot.arguments", "mpilot.libraries.eems (surrounding program)"],
     "stub": ["file system: SimFS behind os.path.exists / open", "environment actor"],
 }
+
+
+STATE_MEASURE = {'C20': 'abstract state = (parameter class, raw value kind, outcome class, working directory present); schedule key = sequence of operation kinds'}
